@@ -57,6 +57,27 @@ check("C03", "exploration",
       "bounded-exhaustive tree/query-form enumeration on the real printer+parser (print/parse round trip oracle)",
       "DESIGN.md §3/C03")
 
+check("C04", "exploration",
+      "Choice-tree exploration (CHESS-style deviation bounding over ~75 input-shape choice points; all sequences with <= 2 "
+      "(quick) / <= 3 (thorough) deviations from a rich base model) of an abstract model generator; every model is rendered "
+      "to XML, parsed by the real library, and the built document (templates, parameters, locals, locations with "
+      "names/labels/flags, branchpoints, init, edges with resolved end points/controllable/all labels, globals, instances "
+      "and processes with positional argument binding and priorities) is compared with the document computed from the "
+      "abstract model. Every label/initialiser/argument carries a site-unique constant.",
+      "Trusts the reference lib/modelgen.py expected() and harness docdump. Small scope: <= 3 templates, <= 4 locations, <= 2 "
+      "branchpoints, <= 8 edges.",
+      "choice-tree DFS with deviation bound on the real parser against a reference model of the document",
+      "DESIGN.md §3/C04")
+
+check("C05", "exploration",
+      "The same choice-tree space restricted to the XML/XTA common subset: each model rendered as .xml and as .xta (chained and "
+      "fully written transitions), both parsed by the real library; whole-document dumps (minus the XML-only action "
+      "attribute), diagnostic multisets and supported-method verdicts must agree, and the XTA document must equal the abstract "
+      "model; plus four faults injected at the same site in both renderings (rejected twins).",
+      "Trusts the two renderers in lib/modelgen.py to express the same model; edge_t::actname ignored.",
+      "choice-tree DFS with deviation bound, differential oracle between the two front ends of the real code",
+      "DESIGN.md §3/C05")
+
 check("C10", "exploration",
       "Every boolean formula tree up to depth 3 over the atom/connective alphabet, as guard and as invariant, is type "
       "checked by the real library and compared with a reference convexity classifier transcribed from the statement; "
@@ -86,6 +107,17 @@ check("C19", "exploration",
       "expression.cpp). Small scope as in C02.",
       "bounded-exhaustive enumeration of expressions x node positions x perturbations on the real code (law oracles)",
       "DESIGN.md §3/C19")
+
+check("C20", "exploration",
+      "Every accepted model of the choice-tree space (branchpoint-free base, <= 2/3 deviations) is parsed, written with "
+      "write_XML_file into a memfd, and the bytes are read by an independent XML parser (ElementTree): template count/names, "
+      "one location element per location with unique id/name/invariant+rate labels/urgent+committed, exactly one init "
+      "resolving to the initial location, one transition per edge in order with end points, controllable attribute and label "
+      "presence; label texts are judged by parsing the written file again and comparing the expression trees. Models with "
+      "branchpoint edges: writing must not crash.",
+      "ElementTree as independent reader; label text equivalence via re-parse by the library (expression trees).",
+      "choice-tree DFS with deviation bound on the real parser+writer, independent-reader oracle",
+      "DESIGN.md §3/C20")
 
 ALL = ["C%02d" % i for i in range(1, 21)]
 for pid in ALL:
